@@ -122,6 +122,7 @@ Proof.
   - now apply sim_s390x.
   - now rewrite Hfmt.
   - now rewrite Hfmt.
+  - rewrite Hfmt. repeat (destruct Hform as [Hf | Hform]; [rewrite Hf; cbn; lia | ]). rewrite Hform; cbn; lia.
   - cbn [af_check af_s390x]. split; [lia|]. split; [apply Hff|apply Hff].
 Qed.
 
@@ -247,5 +248,6 @@ Proof.
   - now apply sim_arm.
   - now rewrite Hfmt.
   - now rewrite Hfmt.
+  - rewrite Hfmt, Hform. cbn. lia.
   - rewrite Hform; wf_by_compute.
 Qed.
